@@ -25,7 +25,7 @@ def one(d):
         if r.returncode:
             return d, "NOAPPLY " + r.stderr.strip()[:80]
         env = dict(os.environ, AMSHAN_REPO=tmp)
-        props = PROPS
+        props = [p_ for p_ in PROPS if not os.environ.get("MX_PROPS") or p_ in os.environ["MX_PROPS"].split(",")]
         if os.environ.get("MX_OWN") and not is_neutral(d):
             props = [own_of(d)]
         code = ("import json,sys\nfrom sa.main import run_property\nout={}\n"
